@@ -261,17 +261,71 @@ func c33Case(rt *rapid.T, rec *vstat.Rec) {
 		return "C33/recovered-data-differs"
 	}
 	if err := s2.Open(); err != nil {
-		if strings.Contains(err.Error(), "MSRW conflict") {
-			// the snapshot written by the recovery wakes the snapshot store's
-			// reaper, which then holds the store's write lock while raft lists
-			// the snapshots during start-up
-			rec.Label(fmt.Sprintf("open-failed-reap-conflict(snaps=%d)", nSnaps))
-			if rec.KnownHit("C33/recovery-open-failed-reap-conflict", "Open after recovery fails with 'MSRW conflict owner: reap' when the recovery snapshot triggers the background reaper (>=3 snapshots present)") {
-				return
-			}
+		if !strings.Contains(err.Error(), "MSRW conflict") {
+			fail("C33/recovery-open-failed", "Open with peers.json failed: %v", err)
+		}
+		// the snapshot written by the recovery wakes the snapshot store's
+		// reaper, which then holds the store's write lock while raft lists
+		// the snapshots during start-up
+		rec.Label(fmt.Sprintf("open-failed-reap-conflict(snaps=%d)", nSnaps))
+		if !rec.KnownHit("C33/recovery-open-failed-reap-conflict", "Open after recovery fails with 'MSRW conflict owner: reap' when the recovery snapshot triggers the background reaper (>=3 snapshots present)") {
 			fail("C33/recovery-open-failed-reap-conflict", "Open with peers.json failed: %v", err)
 		}
-		fail("C33/recovery-open-failed", "Open with peers.json failed: %v", err)
+		// Known finding: the recovery itself is done (peers.json consumed).
+		// Release what the failed Open left behind and start the node again,
+		// as an operator would; the oracle then applies to that start.
+		addrR := s2.ly.Addr().String()
+		if s2.db != nil {
+			s2.db.Close()
+		}
+		if s2.boltStore != nil {
+			s2.boltStore.Close()
+		}
+		if s2.snapshotStore != nil {
+			s2.snapshotStore.Close()
+		}
+		if s2.raftTn != nil {
+			s2.raftTn.Close()
+		}
+		s2.ly.Close()
+		var s2b *Store
+		for try := 0; try < 50 && s2b == nil; try++ {
+			cand, lerr := g8aNewStore(dir, id, g8aOpts{NoSnapshotOnClose: true, Addr: addrR})
+			if lerr != nil {
+				rec.Label("infra:relisten")
+				return
+			}
+			oerr := cand.Open()
+			if oerr == nil {
+				s2b = cand
+				break
+			}
+			// a further conflict with the still-running reaper: same finding
+			if cand.db != nil {
+				cand.db.Close()
+			}
+			if cand.boltStore != nil {
+				cand.boltStore.Close()
+			}
+			if cand.snapshotStore != nil {
+				cand.snapshotStore.Close()
+			}
+			if cand.raftTn != nil {
+				cand.raftTn.Close()
+			}
+			cand.ly.Close()
+			if !strings.Contains(oerr.Error(), "MSRW conflict") {
+				fail("C33/restart-after-failed-recovery-open-failed", "start after the failed Open failed: %v", oerr)
+			}
+			time.Sleep(20 * time.Millisecond)
+		}
+		if s2b == nil {
+			rec.Label("inconclusive:reaper-conflict-persisted")
+			return
+		}
+		s2 = s2b
+		defer g8aCloseQuiet(s2b)
+		hist = append(hist, "OPEN-RETRIED-AFTER-REAP-CONFLICT")
 	}
 	got, err := g8aNodesString(s2)
 	if err != nil {
